@@ -4,6 +4,7 @@
 -/
 import SA.Model.Security
 import SA.Model.SecSpell
+import SA.Model.SecFront
 namespace SA.Drv.SecKinds
 open SA SA.Handshake SA.Security
 
@@ -25,8 +26,31 @@ def firstStr : Option Bool → String
 def spellOk (s : String) : Bool :=
   s.toList.all (fun ch => (ch ≥ 'a' && ch ≤ 'z') || (ch ≥ '0' && ch ≤ '9') || ch == '+')
 
+def parseFront (s : String) : Option Front :=
+  if s == "pass" then some .pass else if s == "tlsdrop" then some .tlsdrop else if s == "loop" then some .loop
+  else if s == "s200" || s == "s404" then some .status
+  else match s.splitOn ":" with
+    | [c, t] =>
+      if !["r301", "r302", "r303", "r307", "r308"].contains c then none
+      else if t == "ws" || t == "http" then some (.redirect false)
+      else if t == "wss" || t == "https" then some (.redirect true)
+      else none
+    | _ => none
+
 def handle (toks : List String) : String :=
   match toks with
+  | [sp, fr, t, a, b, c, d] =>
+    if !spellOk sp then "bad-op" else
+    match parseFront fr, bit? t, bit? a, bit? b, bit? c, bit? d with
+    | some f, some stls, some scert, some must, some insecure, some ca =>
+      match cellFront sp.toList f stls scert must insecure ca with
+      | .badscheme => "badscheme"
+      | .noserver => "noserver"
+      | .refused => "refused"
+      | .est t s echo clear first =>
+        "est " ++ techStr t ++ " secure=" ++ b01 s ++ " echo=" ++ (if echo then "ok" else "fail") ++ " wire=" ++
+          (if clear then "clear" else "opaque") ++ " first=" ++ firstStr first ++ " hops=" ++ toString (hopsOf sp.toList f)
+    | _, _, _, _, _, _ => "bad-op"
   | ["spellings"] =>
     -- the candidates of the harness (bases x {"", "+tls"}) are a superset of the regenerated switch, or this line differs
     ",".intercalate ((SA.Schemes.keysOf (SA.Schemes.tableOf .upstream)).toArray.qsort (· < ·)).toList
